@@ -3,18 +3,22 @@ import re, signal, traceback
 from hypothesis import strategies as st
 
 from vf import findings, hyp
-from vf.gens import corpus, grammar, mutate
+from vf.gens import corpus, grammar, mutate, c02_size
 
 PROPERTY = 'C02'
 RULE = ('cases = (dialect, text): coverage-guided byte-level campaign (atheris/libFuzzer, dictionary of all lexemes, 16 processes) + corpus statements, random grammar derivations, single/double token mutations of '
-        'both, random lexeme sequences, SQL-flavoured and arbitrary Unicode text, pump inputs (opening lexeme + a 1-3 character fragment repeated 30-70 times; the parse runs under a 30 s watchdog) + bounded-exhaustive: every production of each live grammar with every alternative of each of its nonterminals; keywords of those sentences re-spelled with the non-ASCII letters that re.IGNORECASE equates with i / s / k (one per token type x neighbours x variant); non-trivial = not verbatim from the '
+        'both, random lexeme sequences, SQL-flavoured and arbitrary Unicode text, pump inputs (opening lexeme + a 1-3 character fragment repeated 30-70 times; the parse runs under a 30 s watchdog) + bounded-exhaustive: the pump grid (every opening lexeme x every fragment of one character or of two with a backslash x 60 x every closing); every production of each live grammar with every alternative of each of its nonterminals; keywords of those sentences re-spelled with the non-ASCII letters that re.IGNORECASE equates with i / s / k (one per token type x neighbours x variant); size grids (vf/gens/c02_size.py): every chain construct (46 expression chains: operators, casts, NOT / minus, dots, IS / IN / BETWEEN / LIKE, CASE, nested calls, json values ..) repeated up to 2000 characters / parenthesis depth 50 in each of 54 expression positions (incl. the positions where a grammar action rejects and prints the tree) + 36 statement-level lists, and ONE long token (28 kinds: digits around the 4300-digit limit of int() / str() of Python in several scripts, floats, names, quoted names, strings, variables, comments) in each of 70 positions; 47 short tokens of characters nobody types (decimal digits of other scripts, which the \\d of the lexers takes, superscripts / fractions, lone surrogates, NUL, blanks that the lexers do not skip) in the same 70 positions; non-trivial = not verbatim from the '
         'corpus and lexes completely (reaches the parser); distinct by (dialect, text)')
 ASSUMPTIONS = ['termination is observed under a 30 s per-case watchdog, not proved',
-               'RecursionError is judged only for inputs <= 2000 characters with parenthesis depth <= 50']
+               'RecursionError is judged only for inputs <= 2000 characters with parenthesis depth <= 50 (the size-chain grid fills exactly this box); '
+               'every other internal error is judged on inputs of any length (the statement bounds only RecursionError by size)',
+               'quadratic running time (trailing blanks are stripped with a backtracking pattern: 50 000 blanks take 11 s) is not non-termination: the long-token grid stays below 10 000 characters']
 FLOORS = {'quick': {'accepted': 2000, 'rejected-at-token': 3000, 'rejected-at-end': 300, 'lexerror': 300,
-                    '__nontrivial__': 8000, 'origin:unicode-case': 4000, 'origin:pairs': 8000},
+                    '__nontrivial__': 8000, 'origin:unicode-case': 4000, 'origin:pairs': 8000,
+                    'origin:size-chain': 1000, 'origin:size-lexeme': 2000, 'origin:odd-lexeme': 3000, 'origin:pump-grid': 1700},
           'thorough': {'accepted': 20000, 'rejected-at-token': 30000, 'rejected-at-end': 3000, 'lexerror': 3000,
-                       '__nontrivial__': 80000, 'origin:unicode-case': 4000, 'origin:pairs': 8000}}
+                       '__nontrivial__': 80000, 'origin:unicode-case': 4000, 'origin:pairs': 8000,
+                       'origin:size-chain': 5000, 'origin:size-lexeme': 2600, 'origin:odd-lexeme': 3000, 'origin:pump-grid': 1700}}
 N = {'quick': 1500, 'thorough': 20000}
 WATCHDOG_S = 30
 
@@ -60,6 +64,30 @@ def site_of(exc):
     return f'{type(exc).__name__}@{where}'
 
 
+_PRINTER_FRAMES = ('__str__', 'to_string', 'get_string')
+
+
+def recursion_origin(exc):
+    """(module.func, source line) of the library frame that started the recursion: the frame that calls the tree printer
+    if the recursion is inside the printer, else the innermost frame of one of the grammar files."""
+    tb = traceback.extract_tb(exc.__traceback__)
+    lib = [fr for fr in tb if '/mindsdb_sql/' in fr.filename.replace('\\', '/') or '/sly/' in fr.filename.replace('\\', '/')]
+
+    def name(fr):
+        fn = fr.filename.replace('\\', '/')
+        mod = fn.split('/mindsdb_sql/')[-1] if '/mindsdb_sql/' in fn else 'sly/' + fn.split('/sly/')[-1]
+        return mod[:-3].replace('/', '.') + '.' + fr.name
+    for i, fr in enumerate(lib):
+        if fr.name in _PRINTER_FRAMES and fr.filename.replace('\\', '/').endswith('/parser/ast/base.py'):
+            if i:
+                return name(lib[i - 1]), (lib[i - 1].line or '').strip()
+            break
+    for fr in reversed(lib):
+        if fr.filename.replace('\\', '/').endswith(('/parser.py', 'mindsdb_sql/__init__.py')):
+            return name(fr), (fr.line or '').strip()
+    return '?', ''
+
+
 def paren_depth(s):
     d = m = 0
     for ch in s:
@@ -76,6 +104,9 @@ def judge(case, col):
     from mindsdb_sql.parser.ast.base import ASTNode
     from sly.lex import LexError
     d, sql = case['dialect'], case['sql']
+    shown = sql             # what is stored / shown: the text itself, or its escaped form (lone surrogates can not be written to files)
+    if case.get('enc') == 'escape':
+        sql = sql.encode('ascii').decode('unicode_escape')
     cfg = {'dialect': d}
     out = []
     classes = ['dialect:' + d, 'origin:' + case.get('origin', '?').split(':')[0]]
@@ -87,7 +118,7 @@ def judge(case, col):
             if isinstance(r, ASTNode):
                 classes.append('accepted')
             else:
-                out.append(findings.record('non-tree-result', type(r).__name__, [], cfg, repr(r)[:200], sql))
+                out.append(findings.record('non-tree-result', type(r).__name__, [], cfg, repr(r)[:200], shown))
         except ParsingException as e:
             msg = str(e)
             if 'unexpected end of query' in msg or 'at EOF' in msg:
@@ -101,21 +132,22 @@ def judge(case, col):
             classes.append('lexerror')
         except RecursionError as e:
             if len(sql) <= 2000 and paren_depth(sql) <= 50:
-                out.append(findings.record('internal-error', 'RecursionError', [], cfg, '', sql))
+                origin, line = recursion_origin(e)
+                out.append(findings.record('internal-error', 'RecursionError', ['from:' + origin], cfg, line, shown))
             else:
                 col.excluded('recursion on oversized input')
         except _Timeout:
             raise
         except Exception as e:
-            out.append(findings.record('internal-error', site_of(e), [], cfg, f'{type(e).__name__}: {e}', sql))
+            out.append(findings.record('internal-error', site_of(e), [], cfg, f'{type(e).__name__}: {e}'.encode('utf-8', 'backslashreplace').decode('utf-8'), shown))
     except _Timeout:
-        out.append(findings.record('no-termination', f'watchdog {WATCHDOG_S}s', [], cfg, '', sql))
+        out.append(findings.record('no-termination', f'watchdog {WATCHDOG_S}s', [], cfg, '', shown))
     finally:
         signal.setitimer(signal.ITIMER_REAL, 0)
         signal.signal(signal.SIGALRM, old)
     verbatim = (d, sql) in _CORPUS
     reached_parser = 'lexerror' not in classes
-    col.case((d, sql), (not verbatim) and reached_parser, classes, {'dialect': d, 'sql': sql, 'outcome': classes[2:]})
+    col.case((d, shown), (not verbatim) and reached_parser, classes, {'dialect': d, 'sql': shown, 'outcome': classes[2:]})
     return out
 
 
@@ -137,6 +169,7 @@ PUMP_ALPHABET = ['\\', "'", '"', '`', 'a', '1', ' ', '\n', '.', '-', '*', '/', '
 PUMP_PREFIX = ['select ', 'select a from t where b = ', '', 'create model m predict p using k = ', 'select a.']
 PUMP_OPEN = ["'", '"', '`', '/*', '--', '#', '', '(', '@', '1', '1.', 'a', '$', '{{', 'x = ']
 PUMP_CLOSE = ['', '', "'", '"', '`', '*/', ')', ' from t', '\n']
+PUMP_GRID_CLOSE = ['', "'", '"', '`', '*/']
 
 
 @st.composite
@@ -144,13 +177,24 @@ def cases(draw, pool='lite'):
     d = draw(st.sampled_from(corpus.DIALECTS))
     gg = grammar.get(d)
     mode = draw(st.sampled_from(['grammar', 'grammar', 'mut-corpus', 'mut-corpus', 'mut-grammar', 'mut-grammar',
-                                 'lexemes', 'sqlish', 'unicode'] * 2 + ['pump']))
+                                 'lexemes', 'sqlish', 'unicode'] * 2 + ['pump', 'long']))
     if mode == 'pump':
         # a short fragment repeated many times after an opening lexeme: scanning and parsing time must not explode
         # (the watchdog in judge() turns a parse that does not come back into a `no-termination` record)
         frag = ''.join(draw(st.lists(st.sampled_from(PUMP_ALPHABET), min_size=1, max_size=3)))
         sql = (draw(st.sampled_from(PUMP_PREFIX)) + draw(st.sampled_from(PUMP_OPEN)) + frag * draw(st.integers(30, 70))
                + draw(st.sampled_from(PUMP_CLOSE)))
+        return {'dialect': d, 'sql': sql, 'origin': mode}
+    if mode == 'long':
+        # between the points of the size grids: a chain of any length up to the box, or a token of any length around
+        # the 4300-digit limit, in any position
+        if draw(st.booleans()):
+            build = c02_size.CHAINS[draw(st.sampled_from(sorted(c02_size.CHAINS)))]
+            ctx = draw(st.sampled_from(c02_size.CONTEXTS))
+            sql = ctx.replace('{X}', build(draw(st.integers(1, c02_size._fit(build, len(ctx) - 3)))))
+        else:
+            make = c02_size.LEXEMES[draw(st.sampled_from(sorted(c02_size.LEXEMES)))][0]
+            sql = draw(st.sampled_from(c02_size.LEXEME_CONTEXTS)).replace('{L}', make(draw(st.integers(2, 5000))))
         return {'dialect': d, 'sql': sql, 'origin': mode}
     if mode == 'grammar':
         toks = draw(gg.sentence(pool=pool))
@@ -296,4 +340,37 @@ def run_shard(col, k, nshards, tier, seed):
     if k == 0:
         col.exhaustive_parts.append(f'Unicode-case keyword spellings: {nuc} statements (every keyword token with i / s / k of the '
                                     'production-pair sentences, per dialect x token type x neighbouring token types x variant)')
+    # bounded-exhaustive pump grid (the random pump mode meets a given opening x fragment only now and then): every opening
+    # lexeme x every one-character fragment and every two-character fragment with a backslash, 60 times, x every closing;
+    # the dialects take turns
+    frags = PUMP_ALPHABET + ['\\' + ch for ch in PUMP_ALPHABET] + [ch + '\\' for ch in PUMP_ALPHABET if ch != '\\']
+    npump = 0
+    for op in PUMP_OPEN:
+        for fr in frags:
+            for cl in PUMP_GRID_CLOSE:
+                npump += 1
+                if (npump // 3) % nshards == k:
+                    c = {'dialect': corpus.DIALECTS[npump % 3], 'sql': 'select ' + op + fr * 60 + cl, 'origin': 'pump-grid'}
+                    for rec in judge(c, col):
+                        col.fail(rec, c)
+    if k == 0:
+        col.exhaustive_parts.append(f'pump grid: {len(PUMP_OPEN)} opening lexemes x {len(frags)} fragments (one character; two with a backslash) x 60 '
+                                    f'repetitions x {len(PUMP_GRID_CLOSE)} closings, dialects in turn ({npump} statements)')
+    # bounded-exhaustive size grids: long in one dimension only (see vf/gens/c02_size.py)
+    chains = c02_size.chain_cases(corpus.DIALECTS, full=(tier == 'thorough'))
+    lexemes = c02_size.lexeme_cases(corpus.DIALECTS, full=(tier == 'thorough'))
+    odd = c02_size.odd_lexeme_cases(corpus.DIALECTS)
+    for part in (chains, lexemes, odd):
+        for c in part[k::nshards]:
+            for rec in judge(c, col):
+                col.fail(rec, c)
+    if k == 0:
+        col.exhaustive_parts.append(f'size-chain grid: {len(c02_size.CHAINS)} chains x {len(c02_size.CONTEXTS)} positions + '
+                                    f'{len(c02_size.STATEMENT_CHAINS)} statement lists, largest size within {c02_size.MAX_LEN} characters / depth '
+                                    f'{c02_size.MAX_DEPTH}' + (' and half of it, full product' if tier == 'thorough' else '; core chains in every position, the others in every fourth') + f', three dialects ({len(chains)} statements)')
+        col.exhaustive_parts.append(f'size-lexeme grid: {len(c02_size.LEXEMES)} kinds of one long token (digit runs of 4300 / 4301 / 9000) x '
+                                    f'{len(c02_size.LEXEME_CONTEXTS)} positions, three dialects ({len(lexemes)} statements)')
+    if k == 0:
+        col.exhaustive_parts.append(f'odd-lexeme grid: {len(c02_size.ODD_LEXEMES)} short tokens of unusual characters (digits of other scripts, number-like non-digits, lone '
+                                    f'surrogates, NUL, blanks the lexers do not ignore) x {len(c02_size.LEXEME_CONTEXTS)} positions, three dialects ({len(odd)} statements)')
     hyp.explore(col, cases(), judge, N[tier], seed)
